@@ -72,7 +72,9 @@ def run(prop: str, tier: str) -> int:
         from netqasm.sdk.qubit import Qubit
         dtol = inspect.signature(get_angle_spec_from_float).parameters["tol"].default
         sdk_angles = [a for a in angles(tier, random.Random(C.seed() * 17 + 3))][: (300 if tier == "quick" else 10000)]
-        sdk_angles += [2 * math.pi - e for e in (1e-3, 1e-4, 5e-5, 2e-5, 1e-5, 1e-6, 1e-7)] + [-e for e in (1e-4, 2e-5, 1e-6)] + [4 * math.pi - 1e-6, math.pi - 1e-6, math.pi + 1e-6, 0.0, 0.0, 0.0, -0.0, -0.0, -0.0, 2 * math.pi, 2 * math.pi, 2 * math.pi]
+        sdk_angles += [2 * math.pi - e for e in (1e-3, 1e-4, 5e-5, 2e-5, 1e-5, 1e-6, 1e-7)] + [-e for e in (1e-4, 2e-5, 1e-6)] + [k_ * 2 * math.pi + s_ * e_ for k_ in (0, 1, 2, -1) for s_ in (1, -1) for e_ in (1.5e-4, 3e-4, 5e-4, 9e-4)] + \
+            [-7.0, -5 * math.pi / 2, -4 * math.pi - 0.3, -100.0, -2 * math.pi - 1e-3, 100.0, 7.0] + \
+            [4 * math.pi - 1e-6, math.pi - 1e-6, math.pi + 1e-6, 0.0, 0.0, 0.0, -0.0, -0.0, -0.0, 2 * math.pi, 2 * math.pi, 2 * math.pi]
         nsdk = 0
         from netqasm.logging.glob import set_log_level
         devnull = open(os.devnull, "w")
